@@ -2,6 +2,7 @@ package main
 
 import (
 	"fmt"
+	"strconv"
 
 	"github.com/bluenviron/mediacommon/v2/pkg/codecs/h264"
 
@@ -101,6 +102,21 @@ func decKind(h *history, kind int) int {
 }
 
 func isVideoKind(k int) bool { return k >= kH264 && k <= kAV1 }
+
+// Track names are small integers on the abstract side (tcfgA.Name, t_name in Model/Mux.v): 0 = no Name given,
+// n < nameAudioBase = the user-given name "name<n>", nameAudioBase + k = the user-given name "audio<k>" (which
+// is the fallback name of the audio track at index k-1 when that one has no Name).
+const nameAudioBase = 1000
+
+func trackNameOf(id int) string {
+	switch {
+	case id == 0:
+		return ""
+	case id >= nameAudioBase:
+		return "audio" + strconv.Itoa(id-nameAudioBase)
+	}
+	return "name" + strconv.Itoa(id)
+}
 
 var aacRates = []int64{8000, 16000, 22050, 32000, 44100, 48000, 96000}
 
@@ -210,6 +226,64 @@ func genHistory(r *rng.R, long bool) history {
 		pos := r.Intn(len(tracks) + 1) // any order of video / audio
 		tracks = append(tracks[:pos], append([]tcfgA{v}, tracks[pos:]...)...)
 	}
+	// audio renditions whose names collide (one multi-audio configuration in three, fMP4 variants; the draws come
+	// from a fork): two or all of the audio tracks carry the same user-given Name, or one carries, as its
+	// user-given Name, the fallback name ("audio<index+1>") of another one that has none. Every track keeps its
+	// own EXT-X-MEDIA entry, and the DEFAULT one stays where it was.
+	if rn := r.Fork(0xA0D10); h.Variant != 1 && nAudio >= 2 && rn.Bool(1, 3) {
+		var au []int
+		for i, t := range tracks {
+			if !isVideoKind(t.Kind) {
+				au = append(au, i)
+			}
+		}
+		ai := rn.Intn(len(au))
+		bi := (ai + 1 + rn.Intn(len(au)-1)) % len(au)
+		a, b := au[ai], au[bi]
+		switch rn.Intn(3) {
+		case 0:
+			// (a track named after its own fallback name would be indistinguishable from one without a name)
+			tracks[a].Name, tracks[b].Name = nameAudioBase+b+1, 0
+			h.stat("audio-renditions-with-equal-names:user-given-name-equals-a-fallback-name")
+		default:
+			name := tracks[a].Name
+			if name == 0 || name >= nameAudioBase {
+				name = 1 + rn.Intn(3)
+			}
+			tracks[a].Name, tracks[b].Name = name, name
+			if len(au) > 2 && rn.Bool(1, 3) {
+				for _, i := range au {
+					tracks[i].Name = name
+				}
+			}
+			h.stat("audio-renditions-with-equal-names:same-user-given-name")
+		}
+	}
+	// a video track with a finer clock than 90 kHz (one history with video in five; fork): 1 MHz, 10 MHz, on
+	// MPEG-TS (which rescales to 90 kHz itself) also 1 GHz - above that the segmenter's (v % rate) * 10^9 leaves
+	// int64, and on the fMP4 variants 1 GHz leaves 4.29 s to a sample's 32-bit duration. Durations a few
+	// microseconds away from a whole number of seconds / tenths exist only with such a clock (see the rounding
+	// aim below).
+	rf := r.Fork(0xF17EC10C)
+	fineClock := false
+	// MPEG-TS only: on the fMP4 variants the init's time scale of a video track is 90000 whatever Track.ClockRate says
+	// (fmp4TimeScale), so a finer video clock there is outside the ties' stated assumption "Track.ClockRate equals the init
+	// time scale of the codec" (DESIGN.md 12.3, observation O4); the draws are made all the same (seeds stay stable).
+	if fc := rf.Bool(1, 5); hasVideo && fc {
+		rate := []int64{1e6, 1e6, 1e6, 1e7}[rf.Intn(4)]
+		if h.Variant == 1 {
+			rate = []int64{1e6, 1e6, 1e7, 1e9}[rf.Intn(4)]
+		}
+		if h.Variant == 1 {
+			for i := range tracks {
+				if isVideoKind(tracks[i].Kind) {
+					tracks[i].Rate = rate
+				}
+			}
+			fineClock = true
+			h.stat(fmt.Sprintf("video-clock-rate:%d", rate))
+		}
+	}
 	h.Tracks = tracks
 
 	// write sequence
@@ -239,6 +313,7 @@ func genHistory(r *rng.R, long bool) history {
 		havePTS     bool
 		prevReorder bool
 		forceKey    bool // boundary aiming: the next unit is a random-access one
+		gopHold     int  // rounding aim: the GOP length while the aim decides where random-access units go
 	}
 	st := make([]tstate, len(tracks))
 	startSec := r.Range(-9, 30) // negative starts down to -10 s
@@ -282,20 +357,36 @@ func genHistory(r *rng.R, long bool) history {
 		}
 		h.stat("mpegts-cut-at-dts-zero")
 	}
+	// rounding aim (three fine-clock histories in four; draws from the fork): the leading video track's
+	// random-access units (Low-Latency: also plain units, for parts) are placed so that segment and part
+	// durations fall within 7 us below / at / above a whole number of seconds or of tenths of a second - where
+	// the five decimals of EXTINF / EXT-X-PART DURATION / PART-TARGET round up into the next digit, the next
+	// tenth, the next second. SegmentMinDuration stays at or below 1.5 s and the history gets more writes, so
+	// that several such segments fit in.
+	roundAim := fineClock && !aimZero && rf.Bool(3, 4)
+	if roundAim {
+		if h.SegMin > 1500e6 {
+			h.SegMin = []int64{100e6, 250e6, 500e6, 1000e6, 1500e6}[rf.Intn(5)]
+		}
+		if !long {
+			nWrites += 150
+		}
+		h.stat("rounding-aimed-histories")
+	}
 	for i, t := range tracks {
 		s := &st[i]
 		s.params = t.Params0
 		switch t.Kind {
 		case kH264, kH265, kVP9, kAV1:
 			fps := []int64{10, 15, 24, 25, 30, 50, 60}[r.Intn(7)]
-			s.frameDur = 90000 / fps
+			s.frameDur = t.Rate / fps
 			if r.Bool(1, 4) {
-				s.frameDur = 3003 // 29.97
+				s.frameDur = 3003 * t.Rate / 90000 // 29.97
 			}
 			s.jitter = r.Bool(1, 3)
 			s.gop = []int{1, 2, 5, 10, 25, 30, 60, 100}[r.Intn(8)]
 			if aimZero {
-				s.frameDur, s.jitter, s.gop = 90000/fps, false, int(fps)
+				s.frameDur, s.jitter, s.gop = t.Rate/fps, false, int(fps)
 			}
 			s.bf = r.Intn(4)
 			s.pocStep = 2
@@ -314,7 +405,13 @@ func genHistory(r *rng.R, long bool) history {
 				// histories starting on a sequence header so that the rest of C01 / C02 stays observable
 				s.sinceKey = s.gop
 			}
-			s.dts = startSec * 90000
+			s.dts = startSec * t.Rate
+			if roundAim {
+				// starts on a random-access unit; once the first segment is open the aim places the next ones (the
+				// GOP length is then what it takes to get 3 s past SegmentMinDuration: a fallback)
+				s.sinceKey = s.gop
+				s.gopHold = int((h.SegMin/1000+3e6)*(t.Rate/1e6)/s.frameDur) + 1
+			}
 		case kAAC:
 			s.frameDur = 1024
 			s.dts = startSec * t.Rate
@@ -334,7 +431,7 @@ func genHistory(r *rng.R, long bool) history {
 		}
 	}
 	var sim *leadSim
-	if r.Bool(1, 3) && !aimZero {
+	if simOn := r.Bool(1, 3) && !aimZero; simOn || roundAim {
 		sim = &leadSim{variant: h.Variant, rate: tracks[lead].Rate, segMin: h.SegMin, partMin: h.PartMin}
 		if sim.partMin == 0 {
 			sim.partMin = 200e6
@@ -343,13 +440,77 @@ func genHistory(r *rng.R, long bool) history {
 			sim.off = 10 * sim.rate
 		}
 		st[lead].dts += int64(r.Intn(int(st[lead].frameDur)))
-		h.stat("boundary-aimed-histories")
+		if !roundAim {
+			h.stat("boundary-aimed-histories")
+		}
 	}
 	var simCur = tracks[lead].Params0
 	simPend, simStarted := false, false
 	aimSet, aimKey, aimGen, aimTick, aimDelta, aimMin, aimWhat := false, false, -1, int64(0), int64(0), int64(-1), ""
+	// the rounding aim's state: the tick aimed at, whether a random-access unit goes there (segment) or any unit
+	// (part), whether the unit before it lasts until then (a frozen picture) or frames go on until it is in reach
+	raSet, raGen, raTick, raKey, raJump, raWhat := false, -1, int64(0), false, false, ""
+	aimRound := func(s *tstate, x int64, reorder bool) {
+		tpu := sim.rate / 1e6 // ticks per microsecond
+		if raSet && (raGen != sim.gen || raTick <= x) {
+			raSet = false // the open segment / part changed, or the tick was passed: aim again
+		}
+		if !raSet {
+			part := h.Variant == 3 && sim.frozen && sim.adj > 0 && rf.Bool(1, 3)
+			start, least := sim.segStart, sim.segMin
+			if part {
+				start, least = sim.prtStart, sim.adj
+			}
+			// the whole second / tenth T (ns, from the start of the open segment / part) at or after both the
+			// least duration at which a cut happens and what has elapsed already
+			if el := (x-start)/tpu*1000 + 1000; el > least {
+				least = el
+			}
+			var T int64
+			if rf.Bool(2, 3) {
+				T = ceilDiv(least, 1e9) * 1e9
+				if rf.Bool(1, 4) {
+					T += 1e9
+				}
+				raWhat = "second"
+			} else {
+				T = (ceilDiv(least, 1e8) + int64(rf.Intn(4))) * 1e8
+				raWhat = "tenth"
+			}
+			delta := int64(rf.Intn(int(14*tpu+1))) - 7*tpu
+			raTick = start + T/1000*tpu + delta
+			raKey, raJump = !part, part || rf.Bool(1, 3)
+			if part {
+				raWhat = "part:" + raWhat
+			} else {
+				raWhat = "segment:" + raWhat
+			}
+			raSet, raGen = true, sim.gen
+		}
+		lo := x + 1
+		if reorder {
+			// under pic_order_cnt_type 0 the B pictures of the last anchor come first, and a random-access unit
+			// is presented after everything sent so far
+			if len(s.pendB) > 0 {
+				return
+			}
+			if s.havePTS && s.lastPTS+s.frameDur > lo {
+				lo = s.lastPTS + s.frameDur
+			}
+		}
+		if raTick < lo || (!raJump && raTick > s.dts+s.frameDur/2) {
+			return
+		}
+		s.dts = raTick
+		s.forceKey = raKey
+		h.stat("rounding-aimed:" + raWhat)
+	}
 	aim := func(s *tstate, x int64, video bool) {
 		if sim == nil || !sim.open {
+			return
+		}
+		if roundAim {
+			aimRound(s, x, video && s.prevReorder)
 			return
 		}
 		if aimGen != sim.gen {
@@ -385,6 +546,9 @@ func genHistory(r *rng.R, long bool) history {
 		best := int64(1) << 62
 		for i, t := range tracks {
 			ns := st[i].dts * 1e9 / t.Rate
+			if t.Rate > 96000 {
+				ns = mulDivGo(st[i].dts, 1e9, t.Rate) // (the product above wraps around after 2.5 h at 1 MHz, 9 s at 1 GHz)
+			}
 			if r.Bool(1, 5) {
 				ns -= int64(r.Intn(400)) * 1e6
 			}
@@ -398,7 +562,11 @@ func genHistory(r *rng.R, long bool) history {
 		switch t.Kind {
 		case kH264, kH265, kVP9, kAV1:
 			reoStream := t.Kind == kH264 && h.H264Reorder
-			key := s.sinceKey >= s.gop || s.forceKey
+			gop := s.gop
+			if roundAim && sim.open {
+				gop = s.gopHold
+			}
+			key := s.sinceKey >= gop || s.forceKey
 			s.forceKey = false
 			if reoStream && len(s.pendB) > 0 {
 				key = false // the B pictures of the last anchor come first
@@ -414,7 +582,7 @@ func genHistory(r *rng.R, long bool) history {
 			if nalBased && r.Bool(1, 40) { // a unit with neither IDR nor non-IDR slices (e.g. only parameter sets)
 				a.RA, a.NonIDR = false, false
 				if key {
-					s.sinceKey = s.gop // the key frame is still due
+					s.sinceKey = gop // the key frame is still due
 				}
 			}
 			if nalBased {
@@ -547,7 +715,7 @@ func genHistory(r *rng.R, long bool) history {
 							s.ex = nil
 						}
 						if a.RA {
-							s.sinceKey = s.gop
+							s.sinceKey = gop
 						}
 						s.params = prevParams
 						a.RA, a.NonIDR, a.HasParams, a.Params, a.BSlice, a.Poc = false, false, false, 0, false, 0
@@ -575,10 +743,20 @@ func genHistory(r *rng.R, long bool) history {
 					}
 					if simStarted || a.RA {
 						simStarted = true
+						cuts, pcuts := sim.cuts, sim.pcuts
 						if h.Variant == 1 {
 							sim.tsUnit(a.DTS, a.RA, changed, false)
 						} else {
 							sim.sample(a.DTS, a.RA, changed)
+						}
+						if fineClock {
+							// what the cuts produced (as far as the generator's replica of the segmenter can tell)
+							if sim.cuts != cuts {
+								h.stat("fine-clock:segment-duration:" + nearRound(sim.cutDur, sim.rate))
+							}
+							if sim.pcuts != pcuts {
+								h.stat("fine-clock:part-duration:" + nearRound(sim.pcutDur, sim.rate))
+							}
 						}
 					}
 				}
@@ -647,9 +825,34 @@ func genHistory(r *rng.R, long bool) history {
 			}
 		}
 		a.NTP = ntpBase + a.DTS*1e9/t.Rate
+		if t.Rate > 96000 {
+			a.NTP = ntpBase + mulDivGo(a.DTS, 1e9, t.Rate)
+		}
 		h.Ops = append(h.Ops, a)
 	}
 	return h
+}
+
+// nearRound classifies a duration (ticks of a clock that is a multiple of 1 MHz) by where it lies with respect
+// to the whole seconds and the whole tenths of a second: within 5 us below one (five decimals round up into the
+// next tenth / second), on one, within 5 us above, elsewhere.
+func nearRound(ticks, rate int64) string {
+	ns := mulDivGo(ticks, 1e9, rate)
+	for _, u := range []struct {
+		n    int64
+		name string
+	}{{1e9, "whole-second"}, {1e8, "whole-tenth"}} {
+		switch f := ns % u.n; {
+		case ns < 99e6:
+		case f == 0:
+			return "on-a-" + u.name
+		case f >= u.n-5000:
+			return "at-most-5us-below-a-" + u.name
+		case f <= 5000:
+			return "at-most-5us-above-a-" + u.name
+		}
+	}
+	return "elsewhere"
 }
 
 // outsideModel: histories of the search-only legs (storage faults, init failure, slow reader) have no T leg
@@ -722,7 +925,7 @@ func genInitFailure(r *rng.R, h *history) bool {
 		start := ops[pos].DTS
 		ops[pos].RA, ops[pos].NonIDR, ops[pos].HasParams, ops[pos].Params, ops[pos].BadSPS = false, false, false, 0, true
 		n++
-		for pos++; pos < len(ops) && (keys > 0 || (ops[pos].DTS-start)*1e9/90000 < 5*h.SegMin/2); pos++ {
+		for pos++; pos < len(ops) && (keys > 0 || (ops[pos].DTS-start)*1e9/h.Tracks[0].Rate < 5*h.SegMin/2); pos++ {
 			ops[pos].HasParams, ops[pos].Params = false, 0
 			if ops[pos].RA {
 				keys--
